@@ -31,11 +31,11 @@ var c19Classes = []string{"random-bits", "integer", "half-way", "next-to-half-wa
 
 func (c19) Thresholds(tier string) map[string]int64 {
 	th := map[string]int64{
-		"values":                      60000,
-		"contract-checks":             800000,
-		"half-way:negative":           2000,
-		"half-way:positive":           2000,
-		"conversion-error-cases":      6000,
+		"values":                             60000,
+		"contract-checks":                    800000,
+		"half-way:negative":                  2000,
+		"half-way:positive":                  2000,
+		"conversion-error-cases":             6000,
 		"round_places-within-1-ulp-of-bound": 1,
 	}
 	for _, cl := range c19Classes {
@@ -73,7 +73,7 @@ func c19Value(r *core.Rand) (float64, string) {
 	case "integer":
 		return sign(float64(r.U64() % (1 << uint(r.Range(1, 51))))), cl
 	case "half-way":
-		return sign(float64(r.U64()%(1<<uint(r.Range(1, 40))) ) + 0.5), cl
+		return sign(float64(r.U64()%(1<<uint(r.Range(1, 40)))) + 0.5), cl
 	case "next-to-half-way":
 		x := float64(r.U64()%(1<<uint(r.Range(1, 30)))) + 0.5
 		if r.Bool() {
